@@ -180,6 +180,15 @@ def fingerprint(roots, extra=None, skip_attrs=()):
             out.append('%s%d(' % (t.__name__, n))
             w(o.__verif_fp__(), depth + 1)
             out.append(')')
+        elif hasattr(o, '__dict__') and not isinstance(o, (types.ModuleType, types.GeneratorType, types.CoroutineType)) \
+                and not getattr(t, '__slots__', None):
+            # plain Python object: its whole state is its __dict__ (e.g. rx expressions, user objects)
+            out.append('obj%d:%s(' % (n, t.__name__))
+            for k, v in sorted(o.__dict__.items()):
+                out.append(k + '=')
+                w(v, depth + 1)
+                out.append(',')
+            out.append(')')
         else:
             raise Unknown(t.__name__)
 
